@@ -13,7 +13,7 @@ EXPLANATION = (
     'eigenvector of the pencil, evaluated as a rational function of (lambda, sigma), EQUALS the documented map '
     '(1/(lambda-sigma), lambda/(lambda-sigma), (lambda+sigma)/(lambda-sigma)), the solver\'s back-transformation composed '
     'with it is the identity, and the Ritz values are rewritten only inside the final-sort overrides (before the base sort). '
-    'Does NOT decide that the iteration converges to those k eigenvalues (numerical).')
+    'Every reader of the stored Ritz values / estimates / vectors in compute() is preceded on every path from entry by the member that rebuilds them from H under the selection rule of this call (a compute() that follows another compute() never works on the re-ordered, possibly back-transformed values the earlier call left). Does NOT decide that the iteration converges to those k eigenvalues (numerical).')
 ASSUMPTIONS = ['the (operator, B operator) pair handed to each mode is the documented one: inv(A - sigma B) with B, resp. inv(K - sigma KG) with K']
 
 MODE_OF = {'Spectra::SymGEigsShiftInvertOp': 'ShiftInvert', 'Spectra::SymGEigsBucklingOp': 'Buckling', 'Spectra::SymGEigsCayleyOp': 'Cayley'}
@@ -130,6 +130,7 @@ def davidson_rule_flow(ctx, rule='rule-argument-flow'):
 def run(ctx):
     for base in ('Spectra::HermEigsBase', 'Spectra::GenEigsBase'):
         eigsbase.rule_argument_flow(ctx, base)
+        eigsbase.ritz_data_of_current_call(ctx, base)
     davidson_rule_flow(ctx)
     c18.keys(ctx)
     c18.dispatch(ctx)
